@@ -2,11 +2,16 @@
 // deterministic scheduler.  Event log format: ocaml/conc_main.ml.
 //
 // usage: main <casefile>
-//   cfg = [compact factor; combine pass count]
+//   cfg = [compact factor; combine pass count; (model: loop fuel); (model: compact_list version); wait strategy]
+//     wait strategy 0 (default): wait_strategy::backoff<cds::backoff::empty> - wakeup() does nothing
+//     wait strategy 1: `wake_strategy` below - wait_strategy::multi_mutex_multi_condvar without its mutex and
+//       condition variable (they cannot run under the baton scheduler): wait() loads the request word and
+//       reports the per-record notification flag, wakeup( fc ) calls fc.wakeup_any()
 //   thread operations:
 //     [1; rid]   request rid through kernel::combine        (request word op_single = req_Operation)
 //     [2; rid]   request rid through kernel::batch_combine  (request word op_pair   = req_Operation + 1)
 //     [3]        thread exit: the thread-local record pointer is reset, which calls kernel::tls_cleanup
+//     [4]        kernel::invoke_exclusive with an empty functor (what FCQueue::clear / FCStack::empty ... do)
 //   every thread ends with an implicit [3] (a real thread exit runs the same cleanup function through
 //   boost::thread_specific_ptr; it is executed here inside the scheduled region).
 //
@@ -22,6 +27,8 @@
 //   monitor bad_exec N       requests whose execution counter was not exactly 1 when the requester saw the response
 //   monitor uaf N            accesses (instrumented atomics) to a publication record after compact_list freed it
 //   monitor freed N          records freed by compact_list during the case
+//   monitor notified N       calls of the wait strategy's notify() (strategy 1)
+//   monitor woken N          calls of the wait strategy's wait() that returned true (strategy 1)
 #include <cds/algo/flat_combining.h>
 #include <cds/algo/backoff_strategy.h>
 #include <vcase.h>
@@ -78,26 +85,78 @@ struct mon_lock {
     void unlock() { vcase::emitf( "unlock" ); m_lock.unlock(); }
 };
 
-struct traits_t : public fc::traits {
+// wait strategy 1: wait_strategy::multi_mutex_multi_condvar with its std::mutex / std::condition_variable taken
+// out (they cannot run under the baton scheduler; the per-record flag m_wakeup they protect is kept):
+//   notify( fc, rec )   rec.m_wakeup = true                      -- called by operation_done and by wakeup_any
+//   wait( fc, rec )     the two fc.get_operation( rec ) loads of the original; while the request is pending:
+//                       returns true iff m_wakeup was set ("woken by a notification"), else false (the timed
+//                       wait_for expired); clears the flag in both cases like the original
+//   wakeup( fc )        fc.wakeup_any()
+// The flag is a plain field: its accesses belong to the step of the preceding atomic access (in the original they
+// happen under rec.m_mutex).  kernel::wait_for_combining uses the result of wait() for a statistics counter only;
+// "monitor woken" counts the waits that returned true.
+static long& notified() { static long n = 0; return n; }
+static long& woken() { static long n = 0; return n; }
+struct wake_strategy {
+    template <typename PublicationRecord>
+    struct make_publication_record {
+        struct type : public PublicationRecord {
+            bool m_wakeup;
+            type() : m_wakeup( false ) {}
+        };
+    };
+    template <typename PublicationRecord>
+    void prepare( PublicationRecord& ) {}
+    template <typename FCKernel, typename PublicationRecord>
+    bool wait( FCKernel& k, PublicationRecord& rec )
+    {
+        if ( k.get_operation( rec ) >= fc::req_Operation ) {
+            // unique_lock lock( rec.m_mutex );
+            if ( k.get_operation( rec ) >= fc::req_Operation ) {
+                if ( rec.m_wakeup ) {
+                    rec.m_wakeup = false;
+                    ++woken();
+                    return true;
+                }
+                // rec.m_condvar.wait_for( lock, ... ) == cv_status::timeout
+                rec.m_wakeup = false;
+                return false;
+            }
+        }
+        return false;
+    }
+    template <typename FCKernel, typename PublicationRecord>
+    void notify( FCKernel&, PublicationRecord& rec ) { rec.m_wakeup = true; ++notified(); }
+    template <typename FCKernel>
+    void wakeup( FCKernel& k ) { k.wakeup_any(); }
+};
+
+struct traits_backoff : public fc::traits {
     typedef mon_lock lock_type;
     typedef fc::wait_strategy::backoff<cds::backoff::empty> wait_strategy;
     typedef quarantine_alloc<int> allocator;
 };
+struct traits_wake : public traits_backoff {
+    typedef wake_strategy wait_strategy;
+};
 
-class kernel_t : public fc::kernel<rec_t, traits_t> {
-    typedef fc::kernel<rec_t, traits_t> base;
+template <typename Traits>
+class kernel_t : public fc::kernel<rec_t, Traits> {
+    typedef fc::kernel<rec_t, Traits> base;
 public:
     kernel_t( unsigned cf, unsigned pc ) : base( cf, pc ) {}
     // what boost::thread_specific_ptr does when the thread exits: cleanup function on the current value
     void thread_exit() { this->m_pThreadRec.reset(); }
 };
 
+enum { op_single = fc::req_Operation, op_pair };
+
+template <typename Traits>
 class Counting : public fc::container {
 public:
-    enum { op_single = fc::req_Operation, op_pair };
-    typedef kernel_t::iterator fc_iterator;
+    typedef typename kernel_t<Traits>::iterator fc_iterator;
 
-    kernel_t m_fc;
+    kernel_t<Traits> m_fc;
     std::vector<int> exec;      // per-request execution counters
     int inside = 0, worst = 0, bad_exec = 0;
 
@@ -156,6 +215,58 @@ public:
     }
 };
 
+template <typename Traits>
+static void run_one( vcase::Case const& c, unsigned cf, unsigned pc, size_t nreq )
+{
+    size_t nuaf = 0, nfreed = 0;
+    int worst, bad;
+    notified() = 0; woken() = 0;
+    {
+        Counting<Traits> cont( cf, pc, nreq );
+        vcase::run_workers( c, [&]( int t ) {
+            for ( auto const& op : c.threads[t] ) {
+                if ( op[0] == 1 || op[0] == 2 ) {
+                    vcase::emitf( "inv %ld %ld", op[0] == 2 ? (long) op_pair : (long) op_single, op[1] );
+                    long r = cont.request( op[1], t, op[0] == 2 );
+                    vcase::emitf( "ret %ld", r );
+                }
+                else if ( op[0] == 3 )
+                    cont.m_fc.thread_exit();
+                else if ( op[0] == 4 ) {
+                    vcase::emitf( "excl" );
+                    cont.m_fc.invoke_exclusive( []{} );
+                    vcase::emitf( "excldone" );
+                }
+            }
+            cont.m_fc.thread_exit();
+        }, nullptr, nullptr, 20000 );
+        // use-after-free monitor: accesses logged after a record was freed, to an object inside the freed block
+        for ( auto const& b : quarantine()) {
+            ++nfreed;
+            std::set<int> ids;
+            char const* lo = static_cast<char const*>( b.p );
+            for ( auto it = vs::S().obj_ids.lower_bound( lo ); it != vs::S().obj_ids.end() && static_cast<char const*>( it->first ) < lo + b.size; ++it )
+                ids.insert( it->second );
+            for ( size_t i = b.log_pos; i < vs::S().log.size(); ++i ) {
+                std::string const& l = vs::S().log[i];
+                size_t p1 = l.find( ' ' ), p2 = l.find( ' ', p1 + 1 );
+                if ( p2 == std::string::npos || l[p2 + 1] != 'o' ) continue;
+                if ( ids.count( std::atoi( l.c_str() + p2 + 2 ))) ++nuaf;
+            }
+        }
+        worst = cont.worst; bad = cont.bad_exec;
+    }
+    vcase::print_log( c );
+    std::printf( "monitor max_inside %d\n", worst );
+    std::printf( "monitor bad_exec %d\n", bad );
+    std::printf( "monitor uaf %zu\n", nuaf );
+    std::printf( "monitor freed %zu\n", nfreed );
+    std::printf( "monitor notified %ld\n", notified());
+    std::printf( "monitor woken %ld\n", woken());
+    for ( auto const& b : quarantine()) ::operator delete( b.p );
+    quarantine().clear();
+}
+
 int main( int argc, char** argv )
 {
     if ( argc < 2 ) { std::fprintf( stderr, "usage: %s casefile\n", argv[0] ); return 2; }
@@ -164,47 +275,13 @@ int main( int argc, char** argv )
     while ( vcase::read_case( in, c )) {
         unsigned cf = c.cfg.size() > 0 ? (unsigned) c.cfg[0] : 1;
         unsigned pc = c.cfg.size() > 1 ? (unsigned) c.cfg[1] : 1;
+        long strategy = c.cfg.size() > 4 ? c.cfg[4] : 0;
         size_t nreq = 1;
         for ( auto const& th : c.threads ) for ( auto const& op : th ) if ( op.size() > 1 && (size_t) op[1] + 1 > nreq ) nreq = (size_t) op[1] + 1;
-        size_t nuaf = 0, nfreed = 0;
-        int worst, bad;
-        {
-            Counting cont( cf, pc, nreq );
-            vcase::run_workers( c, [&]( int t ) {
-                for ( auto const& op : c.threads[t] ) {
-                    if ( op[0] == 1 || op[0] == 2 ) {
-                        vcase::emitf( "inv %ld %ld", op[0] == 2 ? (long) Counting::op_pair : (long) Counting::op_single, op[1] );
-                        long r = cont.request( op[1], t, op[0] == 2 );
-                        vcase::emitf( "ret %ld", r );
-                    }
-                    else if ( op[0] == 3 )
-                        cont.m_fc.thread_exit();
-                }
-                cont.m_fc.thread_exit();
-            }, nullptr, nullptr, 20000 );
-            // use-after-free monitor: accesses logged after a record was freed, to an object inside the freed block
-            for ( auto const& b : quarantine()) {
-                ++nfreed;
-                std::set<int> ids;
-                char const* lo = static_cast<char const*>( b.p );
-                for ( auto it = vs::S().obj_ids.lower_bound( lo ); it != vs::S().obj_ids.end() && static_cast<char const*>( it->first ) < lo + b.size; ++it )
-                    ids.insert( it->second );
-                for ( size_t i = b.log_pos; i < vs::S().log.size(); ++i ) {
-                    std::string const& l = vs::S().log[i];
-                    size_t p1 = l.find( ' ' ), p2 = l.find( ' ', p1 + 1 );
-                    if ( p2 == std::string::npos || l[p2 + 1] != 'o' ) continue;
-                    if ( ids.count( std::atoi( l.c_str() + p2 + 2 ))) ++nuaf;
-                }
-            }
-            worst = cont.worst; bad = cont.bad_exec;
-        }
-        vcase::print_log( c );
-        std::printf( "monitor max_inside %d\n", worst );
-        std::printf( "monitor bad_exec %d\n", bad );
-        std::printf( "monitor uaf %zu\n", nuaf );
-        std::printf( "monitor freed %zu\n", nfreed );
-        for ( auto const& b : quarantine()) ::operator delete( b.p );
-        quarantine().clear();
+        if ( strategy == 1 )
+            run_one<traits_wake>( c, cf, pc, nreq );
+        else
+            run_one<traits_backoff>( c, cf, pc, nreq );
     }
     return 0;
 }
